@@ -585,7 +585,7 @@ def build_cases(tier):
     scopes = []  # (name, cases, exhaustive, bound)
 
     # A: serial, full cross product
-    nets = _nets(rng, 8 if quick else 24)
+    nets = _nets(rng, 12 if quick else 60)
     Rs = [1, 3, 6] if quick else [1, 2, 4, 8]
     A = []
     for net in nets:
@@ -601,7 +601,7 @@ def build_cases(tier):
 
     # B: scripted pool, every completion permutation
     B = []
-    netsB = _nets(rng, 4 if quick else 10)
+    netsB = _nets(rng, 6 if quick else 20)
     for ni, net in enumerate(netsB):
         for si, sub in enumerate(subs[:3] if quick else subs):
             for post in POSTS:
@@ -628,7 +628,7 @@ def build_cases(tier):
 
     # C: sampled permutations, more trials / several futures done at once / wider windows
     C = []
-    for _ in range(250 if quick else 2500):
+    for _ in range(400 if quick else 10000):
         R = rng.choice([5, 6, 7, 8, 10])
         perm = list(range(R))
         rng.shuffle(perm)
